@@ -101,6 +101,13 @@ def real_arrays(tier, rng):
                             np.linspace(z0, -1e-6, napp))))
                         lab = f"synthetic_clean:{true}"
                     arrs.append((lab, quant(c["force"])))
+    # one very long noise-free curve (longer than any buffer or sub-sampling
+    # limit a library might have: 2^15, 2^16 samples)
+    for napp, z0 in ((40000, 3e-6), (70000, 1e-6 * 1.5)):
+        c = synth.make_curve(n_app=napp, n_ret=50, model_key="hertz_para",
+                             noise=0., z0=z0, seed=1, baseline=0.)
+        true = int(np.argmin(np.abs(np.linspace(z0, -1e-6, napp))))
+        arrs.append((f"synthetic_clean:{true}", quant(c["force"])))
     for name in synth.RECORDED + [
             "fmt-jpk-fd_single_bad_2017-01-16_4.jpk-force"]:
         c = synth.load_recorded(name)
